@@ -14,7 +14,10 @@
 //           chosen alternative, and so on - a few hundred bytes place preemptions anywhere in a
 //           scenario of thousands of scheduling points (weighted mode spends one byte per point and
 //           therefore only ever perturbs the beginning).  Forced choices (running thread blocked)
-//           and weak-CAS failures are a fixed function of the salt and the decision index.
+//           and weak-CAS failures are a fixed function of the salt and the decision index.  A fifth
+//           header byte may add ONE long stall: at a generated decision the running thread is taken off
+//           the processor for 20000..120000 points (the fairness quantum models a fair scheduler; a real
+//           one may deschedule a thread for longer than any bounded retry loop waits).
 // An exhausted stream gives the default alternative (continue the running thread; the scheduler's
 // fairness quantum keeps spin loops progressing).
 #pragma once
@@ -63,6 +66,15 @@ public:
       salt_      = rd_.u8();
       gap_scale_ = 1 + rd_.u8() % 16;
       skip_      = static_cast<unsigned>(rd_.u8()) * gap_scale_;
+      // one long stall: at a generated decision the running thread is descheduled for tens of thousands
+      // of points (longer than any retry bound a lock-free loop might be given)
+      uint8_t sb = rd_.u8();
+      if (sb >= 160)
+      {
+        static const uint64_t lens[] = {20000, 60000, 120000};
+        stall_len_ = lens[sb % 3];
+        stall_at_  = rd_.u8() | (static_cast<unsigned>(rd_.u8() & 3) << 8);
+      }
     }
   }
   int mode() const { return mode_; }
@@ -131,6 +143,12 @@ public:
       last_trace().push_back(Decision{k, n, cur_runnable, false});
     return k;
   }
+  uint64_t stall_points(int) override
+  {
+    if (stall_len_ && stall_calls_++ == stall_at_)
+      return stall_len_;
+    return 0;
+  }
   void quantum_expired(int id) override
   {
     if (mode_ == 2 && id >= 0)
@@ -172,6 +190,8 @@ private:
   vh::Reader &rd_;
   unsigned sw_;
   int mode_;
+  uint64_t stall_len_ = 0;
+  unsigned stall_at_ = 0, stall_calls_ = 0;
   uint8_t salt_       = 0;
   unsigned gap_scale_ = 1, skip_ = 0, spur_n_ = 0;
   std::vector<int> prio_;
